@@ -193,6 +193,54 @@ theorem wrap_unlimited_not_cut (cfg : Cfg) (line : List Sec) (lw fill : Nat) (hi
           simp only [firstW] at hno
           omega
 
+/-- **wrap_unlimited_cut_only_when_stuck.** Without a line limit a line is cut (the loop stops
+with text left) in exactly one situation: nothing has been placed on the current row and the
+first cluster of what is left does not fit next to the wrap symbol (`line_width − symbol
+width < its width`) — no lossless wrapping with a one-column symbol exists then. What is left
+becomes the last row as it is (to be cut by `truncate_str` with the visible mark); everything
+before it is on the wrapped rows (`wrap_lossless`). -/
+theorem wrap_unlimited_cut_only_when_stuck (cfg : Cfg) (line : List Sec) (lw fill : Nat)
+    (hint : Option Nat) (o : Out)
+    (hz : NlZero line) (hu : effMax cfg lw = 0)
+    (h : wrapFull cfg line lw fill hint = .ok o) (hcut : o.stop = .lineLimit) :
+    ∃ style gs rest, o.rows = o.rows.take o.nSym ++ [(style, gs) :: rest] ∧
+      lw ≤ gsWidth gs ∧ (lw - cfg.leftSym.w = 0 ∨ lw - cfg.leftSym.w < firstW gs) := by
+  obtain ⟨st, stop, hl, hr, hw, hfs, hd, hshape⟩ := wrapFull_spec (fx := currentFixes) hz h
+  cases hshape with
+  | plain h0 hs => cases hcut
+  | dropped h0 hs => cases hcut
+  | right r0 hres hne h0 hs hlw hpm hpad => cases hcut
+  | limit hs =>
+    rcases (step_done_lineLimit hd).2 with hlim | ⟨hnl, style, gs, rest, hstack, hst⟩
+    · rw [hu] at hlim
+      simp [limitReached] at hlim
+    · obtain ⟨_, _, hc, hno⟩ := hst
+      have h2 := lw_ge_two_of_not_limit hnl
+      have hl0 : st.len = 0 := by rw [← hl.len, hc]; rfl
+      have hge : lw ≤ gsWidth gs := by
+        have hstep := hd
+        unfold step at hstep
+        rw [hstack] at hstep
+        simp only [hnl, hl0, Nat.zero_add, Bool.false_eq_true, if_false] at hstep
+        by_cases hlt : gsWidth gs < lw
+        · simp [hlt] at hstep
+        · omega
+      refine ⟨style, gs, rest, by simp [hstack], hge, ?_⟩
+      rw [hl0] at hno
+      unfold widthLeft at hno
+      have : gsWidth gs - (0 + gsWidth gs - lw) = lw := by omega
+      rw [this] at hno
+      exact hno
+
+/-- **wrap_symbols_validated.** The domain condition of the width and sectioning theorems —
+wrap symbols of exactly one column (`ValidSymbols`) — is what the source enforces:
+`ensure_display_width_1` (regenerated) accepts one grapheme of display width 1 only, for all
+three symbols. If that validation is dropped this obligation breaks (and the binary oracle's
+wide-symbol witness reports the panic with a concrete input). -/
+theorem wrap_symbols_validated : symbolsValidated = true := rfl
+
+example : ValidSymbols defaultCfg := ⟨rfl, rfl, rfl⟩
+
 /-- **wrap_row_count.** A line limit bounds the number of rows. -/
 theorem wrap_row_count (cfg : Cfg) (line : List Sec) (lw fill : Nat) (hint : Option Nat) (o : Out)
     (hz : NlZero line) (hpos : 0 < effMax cfg lw) (h : wrapFull cfg line lw fill hint = .ok o) :
